@@ -325,8 +325,11 @@ type WalkOption func(*walkOptions)
 
 func (wo *walkOptions) addHandler(handler func(c cid.Cid, err error) error) {
 	if wo.ErrorHandler != nil {
+		// Capture the current handler: referring to wo.ErrorHandler inside the
+		// closure would call the new handler itself, recursing forever.
+		previous := wo.ErrorHandler
 		wo.ErrorHandler = func(c cid.Cid, err error) error {
-			return handler(c, wo.ErrorHandler(c, err))
+			return handler(c, previous(c, err))
 		}
 	} else {
 		wo.ErrorHandler = handler
